@@ -117,8 +117,11 @@ def check_tstep_dims(ctx, rp, q):
         qt = norm((truediv or anydiv or [v])[0])
         for s2 in iter_stmts(fn.body):
             if isinstance(s2, ast.If) and s2.lineno <= st.lineno and any(isinstance(x, ast.Raise) for x in s2.body):
-                t = norm(_paths.subst(s2.test, _paths.dominating_env(fn, s2, keep=KEEP)))
-                if ('%' in t and any(norm(x.right) in t for x in anydiv)) or (truediv and qt in t):
+                te = _paths.subst(s2.test, _paths.dominating_env(fn, s2, keep=KEEP))
+                t = norm(te)
+                # the remainder that is tested is the remainder of *this* quotient: same dividend, same divisor
+                mods = [y for y in ast.walk(te) if isinstance(y, ast.BinOp) and isinstance(y.op, ast.Mod)]
+                if any(norm(y.left) == norm(x.left) and norm(y.right) == norm(x.right) for y in mods for x in anydiv) or (truediv and qt in t):
                     guarded = True
         # is anything taken from the record table per step *without* the count (a stride over all records)?  Then a partial step
         # shows whatever the count is rounded to; where every access reshapes with the truncated count, numpy raises on access instead
@@ -324,5 +327,33 @@ def run(ctx):
         ctx.ok('R-MAPCOUNT', 'bpch:quotient', wb, icv[:80])
     else:
         ctx.violation(Finding('R-MAPCOUNT', 'geoschemfiles/_bpch.py', 'bpch1.__init__', ic[0] if ic else bi.body[-1], 'itemcount is not (file size - general header) // size of one time block'), oid='bpch:quotient')
+    # ---- the scan of the first time step ends on an exact end of file; a position beyond the end means a cut block and must not pass
+    ctx.rule('R-SCANEXACT', 'bpch1: the header scan of the first time step compares the position with the file size for equality only (a position past the end is a cut block)')
+    nse = 0
+    for cmpn in [x for x in ast.walk(bi) if isinstance(x, ast.Compare) and len(x.ops) == 1 and norm(x.left) == 'offset' and norm(x.comparators[0]) == 'file_size']:
+        nse += 1
+        if isinstance(cmpn.ops[0], (ast.Eq, ast.NotEq)):
+            ctx.ok('R-SCANEXACT', norm(cmpn), wb, 'exact comparison')
+        elif isinstance(cmpn.ops[0], (ast.GtE, ast.Gt)):
+            ctx.violation(Finding('R-SCANEXACT', 'geoschemfiles/_bpch.py', 'bpch1.__init__', api.stmt_of(cmpn), '`%s` also ends the scan when the next block header would lie beyond the end of the file: a file cut inside '
+                                  'a data block of its first time step opens as a well-formed one-step file that lacks the remaining tracers' % norm(cmpn)))
+        else:
+            ctx.ok('R-SCANEXACT', norm(cmpn), wb, 'continuation test')
+    ctx.floor('end-of-file comparisons in the bpch1 header scan', nse, 2)
+    # ---- a partial trailing time block is left out by the floor count; it is not an error of this reader, because any error of bpch1
+    # hands the file to bpch2 (the master class catches it), which has no whole-step rule and exposes the incomplete step
+    ctx.rule('R-NOHANDOVER', 'bpch1: nothing raises on a partial trailing time block (the floor count leaves it out; an exception would hand the cut file to bpch2)')
+    mast = ctx.src.mod('geoschemfiles/_bpchmaster.py')
+    fallback = any(isinstance(x, ast.Try) and any(isinstance(h, ast.ExceptHandler) for h in x.handlers) for f_ in mast.functions.values() for x in ast.walk(f_))
+    bad_r = None
+    if ic:
+        for s2 in iter_stmts(bi.body):
+            if isinstance(s2, ast.If) and s2.lineno > ic[0].lineno and 'itemcount' in norm(s2.test) and any(isinstance(x, ast.Raise) for x in iter_stmts(s2.body)):
+                bad_r = s2
+    if bad_r is not None and fallback:
+        ctx.violation(Finding('R-NOHANDOVER', 'geoschemfiles/_bpch.py', 'bpch1.__init__', bad_r, 'bpch1 raises when the file does not end on a whole time block (%s); the master class catches every exception of bpch1 '
+                              'and re-reads with bpch2, which exposes the incomplete step: the stricter reader makes the public reader return partial data' % norm(bad_r.test)[:60]))
+    else:
+        ctx.ok('R-NOHANDOVER', 'bpch1', wb, 'no raise depends on itemcount (fallback to bpch2 present: %s)' % fallback)
     ctx.assumptions += ['numpy.memmap raises when offset/shape exceed the file and when the remaining size is not a multiple of the item size (numpy documentation)',
                         'sizes are positive, so int() of a quotient truncates like floor']
